@@ -53,6 +53,8 @@ func CrashCheck(s *Session, r *RNG, maxBits int, tornCuts int, probeEvery int, m
 	lastOK, inProg := 0, 0
 	seen := map[uint64]bool{}
 
+	sparseEvery := len(log)/15 + 1
+	full := func() bool { return maxImages > 0 && st.Images >= maxImages }
 	endOK := map[int]bool{}
 	for _, op := range log {
 		if op.Kind == simdisk.OpMark && strings.HasPrefix(op.Label, "commit-end ") {
@@ -64,8 +66,8 @@ func CrashCheck(s *Session, r *RNG, maxBits int, tornCuts int, probeEvery int, m
 	}
 
 	check := func(k int, img []byte, desc string) {
-		if maxImages > 0 && st.Images >= maxImages {
-			return
+		if maxImages > 0 && st.Images >= maxImages+300 {
+			return // hard cap; boundaries are skipped from maxImages on, header writes excepted
 		}
 		var allowed []SpecState
 		if a, ok := s.stateByN(lastOK); ok {
@@ -150,6 +152,13 @@ func CrashCheck(s *Session, r *RNG, maxBits int, tornCuts int, probeEvery int, m
 		if !created || len(fails) > 5 {
 			continue
 		}
+		isHdr := op.Kind == simdisk.OpWrite && len(op.Data) == 84 && (op.Off == 0 || op.Off == int64(ps))
+		if full() && !isHdr {
+			continue // image budget used up; header writes are always looked at
+		}
+		if s.SparseCrash && !isHdr && r.Intn(sparseEvery) != 0 {
+			continue // long logs (backlog programs): a sample of the boundaries, every header write included
+		}
 		st.Boundaries++
 		n := len(pend)
 		if n > st.MaxPending {
@@ -167,11 +176,18 @@ func CrashCheck(s *Session, r *RNG, maxBits int, tornCuts int, probeEvery int, m
 			check(k, build(func(i int) bool { return true }), "all pending")
 			for j := 0; j < n; j++ {
 				jj := j
+				if s.SparseCrash && n > 32 && j != n-1 && r.Intn(n/3) != 0 {
+					continue
+				}
 				check(k, build(func(i int) bool { return i == jj }), fmt.Sprintf("only pending #%d", jj))
 				check(k, build(func(i int) bool { return i != jj }), fmt.Sprintf("all but pending #%d", jj))
 				check(k, build(func(i int) bool { return i <= jj }), fmt.Sprintf("prefix %d", jj))
 			}
-			for j := 0; j < 24; j++ {
+			nrand := 24
+			if s.SparseCrash {
+				nrand = 6
+			}
+			for j := 0; j < nrand; j++ {
 				bits := r.Next()
 				bits2 := r.Next()
 				check(k, build(func(i int) bool {
